@@ -719,6 +719,28 @@ def _check_partition(ctx, fn: ast.FunctionDef) -> None:
         if isinstance(v, ast.Call) and last_attr(v) == "get" and v.args and isinstance(v.args[0], ast.Constant) and v.args[0].value == "isRepeat":
             return len(v.args) == 1 or (isinstance(v.args[1], ast.Constant) and not v.args[1].value)
         return False
+    # "same stage" is measured from the CONSUMER's own stage: every definition of the stage that the partition compares the predecessors'
+    # stage with is derived from the component handed in (its stageIndex, or the stage prefix of its own reference) - never from the state
+    # of the controller.  The scheduler walks every node of the graph, also those of future stages; with the stage that happens to be
+    # EXECUTING as the yardstick, a repeating component of a later stage treats a producer of the executing stage as its subject and is
+    # launched while that producer is still running
+    comp_param = fn.args.args[1].arg if len(fn.args.args) > 1 else None
+    stage_defs = [a_ for a_ in source.walk_own(fn) if isinstance(a_, ast.Assign) and any(
+        isinstance(x, ast.Name) and x.id == OWN_STAGE and isinstance(x.ctx, ast.Store) for t in a_.targets for x in ast.walk(t))]
+    for a_ in stage_defs:
+        from_self = [x for x in ast.walk(a_.value) if isinstance(x, ast.Attribute) and isinstance(x.value, ast.Name) and x.value.id == "self"
+                     and not (isinstance(source.parent(x), ast.Call) and source.parent(x).func is x)]
+        names_ = {x.id for x in ast.walk(a_.value) if isinstance(x, ast.Name)}
+        derived = comp_param in names_ or any(comp_param in {y.id for v in match.assigned_value(fn, nm) for y in ast.walk(v) if isinstance(y, ast.Name)}
+                                              for nm in names_ - {"self"})
+        ok = not from_self and derived
+        ctx.ob("C01.R5-partition", a_, ok,
+               "the stage the partition measures 'same stage' from is the component's own" if ok else
+               "the stage that the producers/subjects partition compares the predecessors' stage with is taken from %s, not from the component itself: "
+               "_schedule considers every node of the graph, so a repeating component of a LATER stage then counts a producer of the executing "
+               "stage as its subject - it is launched as soon as that producer is staged in, while the producer is still running (and has "
+               "already run when the producer later fails)" % (short(from_self[0], 40) if from_self else short(a_.value, 40)),
+               construct="_comp_get_active_predecessors: the yardstick stage is the component's own")
     derivations = [a for a in source.walk_own(fn) if isinstance(a, ast.Assign) and any(isinstance(t, ast.Name) and t.id == IS_REPEAT for t in a.targets)]
     ctx.floor("C01.R5-partition", len(derivations), 2, "derivations of the 'is repeating' flag in _comp_get_active_predecessors")
     for a in derivations:
